@@ -1,7 +1,7 @@
 #!/usr/bin/env python3
 """Re-run the checks against every recorded seeded change, with the machinery as it is now.
 
-usage: tools/seedrerun.py [ID ...]      (default: every directory under seeded/)
+usage: tools/seedrerun.py [--jobs N] [ID ...]      (default: every directory under seeded/; N worktrees side by side)
 
 One scratch worktree of /repo's main (outside /repo and /verif) is created, each seeded/<id>/patch.diff is applied there
 (`git apply`, falling back to `--3way`), the property's own check and any extra checks named in EXTRA are run with
@@ -25,7 +25,23 @@ def sh(cmd, cwd=None, env=None):
 
 
 def main():
-    ids = sys.argv[1:] or sorted(os.listdir(os.path.join(VERIF, "seeded")))
+    args = sys.argv[1:]
+    if args and args[0] == "--jobs":
+        # split the ids over N copies of this script, each with its own worktree and build directory
+        n = int(args[1])
+        ids = args[2:] or sorted(os.listdir(os.path.join(VERIF, "seeded")))
+        procs = []
+        for k in range(n):
+            part = ids[k::n]
+            if part:
+                env = dict(os.environ, SEEDRERUN_SUFFIX=f"_{k}")
+                procs.append(subprocess.Popen([sys.executable, os.path.abspath(__file__)] + part, env=env))
+        rc = [p.wait() for p in procs]
+        return
+    global WT, BUILD
+    WT += os.environ.get("SEEDRERUN_SUFFIX", "")
+    BUILD += os.environ.get("SEEDRERUN_SUFFIX", "")
+    ids = args or sorted(os.listdir(os.path.join(VERIF, "seeded")))
     sh(f"git -C /repo worktree remove --force {WT}")
     r = sh(f"git -C /repo worktree add --detach {WT} main")
     assert r.returncode == 0, r.stderr
